@@ -72,8 +72,22 @@ def guard (tc : TC) : Guard → JV → Bool
   | .lenNe0, v => (match tc with
                    | .str => !v.isEmptyStr                    -- len of a string
                    | _ => !(v.isNull || v.isEmptyColl))        -- len of a slice or map (nil has length 0)
+  | .neNilLenNe0, v => !(v.isNull || v.isEmptyColl)      -- x != nil && len(*x) != 0
+  | .orEmpty, _ => true                                    -- both branches write the key
   | .addProps, v => !v.isNull
   | .unknown _, _ => false
+
+/-- the value one `m["k"] = …` statement writes for a field holding `v`: the field itself, except in the
+    `else` branch of `if x != nil { m[k] = x } else { m[k] = T{} }`, which writes an empty map -/
+def written : Guard → JV → JV
+  | .orEmpty, .null => .obj []
+  | _, v => v
+
+/-- guards under which the key is written whatever the field holds -/
+def Guard.uncond : Guard → Bool
+  | .always => true
+  | .orEmpty => true
+  | _ => false
 
 /-! ### one kind, flat -/
 
@@ -97,7 +111,8 @@ def tcOfGo (d : Desc) (g : String) : TC :=
   match fieldByGo d g with | some f => f.tc | none => .unknown
 
 def emit (child : String → JV → JV) (d : Desc) (r : Rec) (m : MField) : Option (String × JV) :=
-  if guard (tcOfGo d m.goName) m.guard (r.fld m.goName) then some (m.key, child m.goName (r.fld m.goName)) else none
+  if guard (tcOfGo d m.goName) m.guard (r.fld m.goName)
+  then some (m.key, child m.goName (written m.guard (r.fld m.goName))) else none
 
 /-- `MarshalYAML`; `child` is what marshalling does to the value of a Go field (identity in the flat model) -/
 def marshalWith (child : String → JV → JV) (d : Desc) (r : Rec) : Obj :=
@@ -120,6 +135,7 @@ def compat : TC → Guard → Bool
   | .uint, .neZero => true
   | .ptr, .neNil => true
   | .ptr, .always => true
+  | .ptypes, .neNilLenNe0 => true    -- (`.ptypes, .neNil` is NOT compatible: the empty list, a default, would be written)
   | .slice, .lenNe0 => true
   | .slice, .neNil => true
   | .map, .lenNe0 => true
@@ -127,6 +143,7 @@ def compat : TC → Guard → Bool
   | .map, .always => true
   | .nmap, .lenNe0 => true
   | .nmap, .neNil => true
+  | .nmap, .orEmpty => true          -- (`.nmap, .always` is NOT compatible: nil ↦ null ↦ empty map ↦ {} is not stable)
   | .iface, .neNil => true
   | .value, .always => true
   | .addProps, .addProps => true
@@ -139,11 +156,6 @@ def shapeKnown : Shape → Bool
   | .pmap s => shapeKnown s
   | _ => true
 
-/-- `compat` plus the one combination that loses nothing but is not stable: a named map written
-    unconditionally (nil ↦ null ↦ empty map ↦ {}) — `RequestBody.content`, `OAuthFlow.scopes` -/
-def compatW (tc : TC) (g : Guard) : Bool :=
-  compat tc g || (tc == .nmap && g == .always)
-
 /-- every marshal statement reads the field whose tag is the key it writes, under a fitting guard -/
 def marshFieldOK (c : TC → Guard → Bool) (d : Desc) (m : MField) : Bool :=
   match fieldByGo d m.goName with
@@ -154,7 +166,7 @@ def tagKeys (d : Desc) : List String := d.fields.map (·.key)
 def marshKeys (d : Desc) : List String := d.marsh.map (·.key)
 
 /-- keys the marshaller writes unconditionally -/
-def alwaysKeys (d : Desc) : List String := (d.marsh.filter (fun m => m.guard == .always)).map (·.key)
+def alwaysKeys (d : Desc) : List String := (d.marsh.filter (fun m => m.guard.uncond)).map (·.key)
 
 /-- Fields that the OpenAPI specifications (3.0.3 / 2.0) mark REQUIRED and that the Go types serialise
     even when empty. Written from the specification text, not from the marshallers; `structAgree` demands
@@ -201,10 +213,8 @@ def Desc.agreeWith (c : TC → Guard → Bool) (d : Desc) : Bool :=
    | .alias => d.uniform && shapeKnown d.valueShape
    | _ => d.hasMarsh && d.hasUnm && d.delegates && d.uniform && shapeKnown d.valueShape)
 
-/-- full agreement: the round trip of the kind loses nothing, invents nothing and is stable -/
+/-- agreement: the round trip of the kind loses nothing, invents nothing and is stable -/
 def Desc.agree (d : Desc) : Bool := d.agreeWith compat
-/-- weak agreement: loses nothing and invents nothing (stability may fail for a nil named map) -/
-def Desc.agreeW (d : Desc) : Bool := d.agreeWith compatW
 
 /-- a shape whose null entries are decoded into pointers to zero wrappers that cannot be marshalled
     (wrapper `w` neither checks `Value` itself nor has a nil-tolerant value marshaller) -/
@@ -235,6 +245,7 @@ def isDefault (tc : TC) (v : JV) : Bool :=
    | .str => v.isEmptyStr
    | .bool => v.isFalse
    | .uint => v.isZeroNum
+   | .ptypes => v.isEmptyColl
    | .slice => v.isEmptyColl
    | .map => v.isEmptyColl
    | .nmap => v.isEmptyColl
@@ -265,8 +276,9 @@ def refString (o : Obj) : Option String :=
 
 def isExtKey (k : String) : Bool := "x-".toList.isPrefixOf k.toList
 
-/-- `Types`: a string becomes a one-element list and is written back as a string; a one-element list is
-    written as a string; the empty list is written as null -/
+/-- `Types.MarshalYAML`: a string becomes a one-element list and is written back as a string; a one-element
+    list is written as a string; the empty list is written as null (the three marshallers that hold a `*Types`
+    no longer reach this with an empty list: guard `neNilLenNe0`) -/
 def rtTypes : JV → JV
   | .arr [] => .null
   | .arr [x] => x
@@ -304,7 +316,7 @@ def marshalDeep (f : Shape → JV → Res JV) (d : Desc) (r : Rec) : Res Obj :=
   if d.refEarly && !(r.fld "Ref").isEmptyStr then pure [("$ref", r.fld "Ref")]
   else
     ((d.marsh.filter (fun m => guard (tcOfGo d m.goName) m.guard (r.fld m.goName))).mapM
-      (fun (m : MField) => (f (shapeOfGo d m.goName) (r.fld m.goName)).map (fun v' => (m.key, v')))).map
+      (fun (m : MField) => (f (shapeOfGo d m.goName) (written m.guard (r.fld m.goName))).map (fun v' => (m.key, v')))).map
       (fun fs => fs ++ (if d.extCopy then r.ext else []))
 
 /-- deep round trip with fuel (`.error .fuel` = out of fuel; the driver passes more than the depth needs). -/
